@@ -114,6 +114,9 @@ type Outcome struct {
 	Timeout   bool   `json:"timeout,omitempty"`
 	Temporary bool   `json:"temporary,omitempty"`
 	Fault     bool   `json:"fault,omitempty"`
+	// StreamResults are the messages the stub sends on a streaming endpoint (server and bidi streams), in
+	// order; Result is the final result of a client stream; View is set on the stream before the first Send.
+	StreamResults []any `json:"stream_results,omitempty"`
 }
 
 // RawReq is a hand-encoded request (raw mode).
@@ -140,6 +143,8 @@ type Case struct {
 	RespHeader map[string]string `json:"resp_header,omitempty"`
 	Accept     string            `json:"accept,omitempty"`
 	Note       map[string]any    `json:"note,omitempty"`
+	// Stream scripts a streaming (websocket) exchange (stream.go); nil for plain request/response cases.
+	Stream *StreamScript `json:"stream,omitempty"`
 }
 
 // Exchange is the record of one case.
@@ -162,8 +167,12 @@ type Exchange struct {
 	// after later exchanges ran and compared with what was recorded at hand-over time.
 	LateChange []string `json:"late_change,omitempty"`
 
+	// Stream is the record of a streaming exchange (stream.go).
+	Stream *StreamRec `json:"stream_rec,omitempty"`
+
 	mu   sync.Mutex
 	kept []keptVal
+	ws   *wsState // live state of a streaming exchange (never logged)
 }
 
 // keptVal is a Go value retained after it was handed over, with its canonical form at that time.
@@ -260,10 +269,16 @@ func (h *Hooks) Invoke(ctx context.Context, goMethod string, args []any, out Out
 	ex.mu.Lock()
 	ex.StubCalls++
 	si := &StubIn{GoMethod: goMethod}
+	dn := h.svc.byGo[goMethod]
+	var stream any
+	if h.svc.streamT[dn] != nil && len(args) > 0 {
+		// the last argument of a streaming method is the server stream, not a payload
+		stream, args = args[len(args)-1], args[:len(args)-1]
+	}
 	if len(args) > 0 {
 		si.HasPayload = true
-		si.Payload = canonTyped(args[0], h.svc.payloadT[h.svc.byGo[goMethod]])
-		defer ex.retain("stub_in", args[0], h.svc.payloadT[h.svc.byGo[goMethod]], si.Payload)
+		si.Payload = canonTyped(args[0], h.svc.payloadT[dn])
+		defer ex.retain("stub_in", args[0], h.svc.payloadT[dn], si.Payload)
 	}
 	ex.StubIn = si
 	ex.Seq = append(ex.Seq, "stub_in")
@@ -277,6 +292,10 @@ func (h *Hooks) Invoke(ctx context.Context, goMethod string, args []any, out Out
 	}
 	if h.d.Echo != nil {
 		oc = h.d.Echo(ex, si)
+	}
+	if stream != nil {
+		h.serveStream(ex, reflect.ValueOf(stream), oc, out)
+		return
 	}
 	if err := h.apply(oc, out); err != nil {
 		ex.mu.Lock()
@@ -411,6 +430,9 @@ type svcState struct {
 	mux      goahttp.ResolverMuxer
 	client   reflect.Value // *httpclient.Client
 	handler  http.Handler
+	streamT  map[string]reflect.Type // design method name -> server stream interface (streaming methods only)
+	ts       *httptest.Server        // real loopback server of the mounted muxer (started by the first streaming case)
+	tsOnce   sync.Once
 	payloadT map[string]reflect.Type // design method name -> payload type (nil if none)
 	resT     map[string]reflect.Type // design method name -> result type (nil if none)
 	byGo     map[string]string       // Go method name -> design name
@@ -474,6 +496,12 @@ func (dr *Driver) setup(st *svcState) (err error) {
 				st.payloadT[dn] = pt
 			}
 		}
+		if st.streamT == nil {
+			st.streamT = map[string]reflect.Type{}
+		}
+		if n := m.Type.NumIn(); n >= 3 && isStreamType(m.Type.In(n-1)) {
+			st.streamT[dn] = m.Type.In(n - 1)
+		}
 		st.hasRes[dn] = m.Type.NumOut() >= 2
 		if st.resT == nil {
 			st.resT = map[string]reflect.Type{}
@@ -514,8 +542,10 @@ func (dr *Driver) setup(st *svcState) (err error) {
 			args[i] = reflect.ValueOf(errh)
 		case pt == reflect.TypeOf(formatter):
 			args[i] = reflect.ValueOf(formatter)
+		case pt == reflect.TypeOf((*goahttp.Upgrader)(nil)).Elem():
+			args[i] = reflect.ValueOf(newUpgrader()).Convert(pt) // a real gorilla upgrader (stream.go)
 		default:
-			args[i] = reflect.Zero(pt) // upgrader, configurer, multipart decoders ...
+			args[i] = reflect.Zero(pt) // configurer, multipart decoders ...
 		}
 	}
 	server := reflect.ValueOf(sv.ServerNew).Call(args)[0]
@@ -536,6 +566,8 @@ func (dr *Driver) setup(st *svcState) (err error) {
 			cargs[i] = reflect.ValueOf("lab.local")
 		case pt == reflect.TypeOf((*goahttp.Doer)(nil)).Elem():
 			cargs[i] = reflect.ValueOf(doer).Convert(pt)
+		case pt == reflect.TypeOf((*goahttp.Dialer)(nil)).Elem():
+			cargs[i] = reflect.ValueOf(&tapDialer{d: dr, st: st}).Convert(pt) // tap in front of a real websocket dial (stream.go)
 		case pt == reflect.TypeOf(goahttp.RequestEncoder):
 			cargs[i] = reflect.ValueOf(goahttp.RequestEncoder)
 		case pt == reflect.TypeOf(goahttp.ResponseDecoder):
@@ -703,6 +735,10 @@ func (dr *Driver) runWith(c *Case, useGlobal bool, onStart func(*Exchange)) *Exc
 				ex.mu.Unlock()
 			}
 		}()
+		if c.Stream != nil {
+			dr.runStream(st, ex, ctx)
+			return
+		}
 		if c.Raw != nil {
 			dr.runRaw(st, ex, ctx)
 			return
